@@ -11,6 +11,8 @@ pipeline runs, so their oracles see every internal call as well.
 """
 from __future__ import annotations
 
+import zlib
+
 from antismash.common.hmm_rule_parser import cluster_prediction as CP
 
 from vf import findings, instrument
@@ -40,7 +42,8 @@ ASSUMPTIONS = [
 REQUIRED = ["op:anchors", "op:chains", "op:core-span", "op:extent", "op:extenders", "op:superiors",
             "monitor:DetectionRule.detect", "monitor:connect_locations", "monitor:Record.get_cds_features_within_location",
             "shape:chain-across-origin", "shape:boundary-distance", "shape:clipped-extent", "shape:wrapped-extent",
-            "shape:superior-removal", "shape:extender-extension"]
+            "shape:superior-removal", "shape:extender-extension",
+            "history:ruleset-used-on-an-earlier-small-circular-record"]
 
 
 class Capture:
@@ -415,13 +418,30 @@ def run_world(ctx, world):
     W.quiet()
     CAP.reset()
     record = W.build_record(world)
+    live_hits = dict(world["hits"])
     try:
-        ruleset = W.build_ruleset(world)
+        ruleset = W.build_ruleset(dict(world, hits=live_hits))
     except (ValueError, SyntaxError) as err:
         ctx.count("skipped:ruleset-rejected:" + str(err)[:40])
         return
     for rule in world["rules"]:
         c01.REGISTRY[rule["name"]] = rule["ast"]
+    # a ruleset serves every record of a run: a quarter of the worlds are the second record of their run, the first
+    # being a small circular plasmid (shorter than twice the largest cutoff) on which every profile hits
+    if zlib.crc32(repr(sorted(world["genes"])).encode() + str(world["L"]).encode()) % 4 == 0:
+        largest = max(r["cutoff_kb"] for r in world["rules"]) * 1000
+        plasmid = {"L": largest + 300, "circular": True,
+                   "genes": {"p0": {"loc": {"parts": [[0, 200]], "strand": 1}},
+                             "p1": {"loc": {"parts": [[largest // 2 + 100, largest // 2 + 300]], "strand": -1}}},
+                   "hits": {"p0": {p: 50 for p in W.PROFILES}, "p1": {p: 50 for p in W.PROFILES}}}
+        live_hits.clear()
+        live_hits.update(plasmid["hits"])
+        ctx.guard("pipeline-crash", dict(world, earlier_record=plasmid), CP.detect_protoclusters_and_signatures,
+                  W.build_record(plasmid), ruleset)
+        ctx.count("history:ruleset-used-on-an-earlier-small-circular-record")
+        live_hits.clear()
+        live_hits.update(world["hits"])
+        CAP.reset()
     ok, results = ctx.guard("pipeline-crash", world, CP.detect_protoclusters_and_signatures, record, ruleset)
     if not ok:
         ctx.case(("world", world), nontrivial=True)
